@@ -190,6 +190,25 @@ impl Space {
             Space::Oklab | Space::Oklch | Space::Okhsl | Space::Okhsv | Space::Okhwb => Wp::D65,
         }
     }
+    /// Is `c` inside the nominal range of the space (hard bounds only: non-negative stimuli,
+    /// lightness, chroma and saturation-like components; a*, b*, u*, v* and hue are unbounded)?
+    pub fn in_nominal_range(self, c: &V3) -> bool {
+        let r = self.ranges();
+        let nonneg_only = |k: usize| c[k] >= 0.0;
+        let within = |k: usize| c[k] >= r[k].0 && c[k] <= r[k].1;
+        match self {
+            Space::Rgb(_) => within(0) && within(1) && within(2),
+            Space::Luma(..) => within(0),
+            Space::Hsl(_) | Space::Hsv(_) | Space::Okhsl | Space::Okhsv | Space::Hsluv(_) => within(1) && within(2),
+            Space::Hwb(_) | Space::Okhwb => within(1) && within(2) && c[1] + c[2] <= 1.0,
+            Space::Xyz(_) => nonneg_only(0) && nonneg_only(1) && nonneg_only(2),
+            Space::Yxy(_) => within(0) && within(1) && nonneg_only(2) && c[0] + c[1] <= 1.0,
+            Space::Lab(_) | Space::Luv(_) => within(0),
+            Space::Lch(_) | Space::Lchuv(_) => within(0) && nonneg_only(1),
+            Space::Oklab => within(0),
+            Space::Oklch => within(0) && nonneg_only(1),
+        }
+    }
     /// index of the hue component, if any
     pub fn hue_index(self) -> Option<usize> {
         match self {
@@ -223,71 +242,138 @@ impl Space {
 
     // -----------------------------------------------------------------------------------------
     pub fn to_xyz(self, c: V3) -> V3 {
+        if let Some(a) = self.anchor() {
+            return mat_vec(&a.rgb_to_xyz(), self.to_lin(c));
+        }
         match self {
             Space::Xyz(_) => c,
             Space::Yxy(w) => yxy_to_xyz(c, w),
-            Space::Rgb(s) => {
-                let lin = [s.tf.decode_signed(c[0]), s.tf.decode_signed(c[1]), s.tf.decode_signed(c[2])];
-                mat_vec(&s.space.rgb_to_xyz(), lin)
-            }
             Space::Luma(w, tf) => {
                 let y = tf.decode_signed(c[0]);
                 let x = w.xyz();
                 [x[0] * y, x[1] * y, x[2] * y]
             }
-            Space::Hsl(s) => Space::Rgb(s).to_xyz(hsl_to_rgb(c)),
-            Space::Hsv(s) => Space::Rgb(s).to_xyz(hsv_to_rgb(c)),
-            Space::Hwb(s) => Space::Rgb(s).to_xyz(hsv_to_rgb(hwb_to_hsv(c))),
             Space::Lab(w) => lab_to_xyz(c, w),
             Space::Lch(w) => lab_to_xyz(polar_to_rect(c), w),
             Space::Luv(w) => luv_to_xyz(c, w),
             Space::Lchuv(w) => luv_to_xyz(polar_to_rect(c), w),
             Space::Hsluv(w) => luv_to_xyz(polar_to_rect(hsluv_to_lchuv(c)), w),
-            Space::Oklab => oklab_to_xyz(c),
-            Space::Oklch => oklab_to_xyz(polar_to_rect(c)),
-            Space::Okhsl => lin_srgb_to_xyz(super::ok::okhsl_to_linear_srgb(c)),
-            Space::Okhsv => lin_srgb_to_xyz(super::ok::okhsv_to_linear_srgb(c)),
-            Space::Okhwb => lin_srgb_to_xyz(super::ok::okhsv_to_linear_srgb(super::ok::okhwb_to_okhsv(c))),
+            _ => unreachable!(),
         }
     }
 
     pub fn from_xyz(self, x: V3) -> V3 {
+        if let Some(a) = self.anchor() {
+            return self.from_lin(mat_vec(&a.xyz_to_rgb(), x));
+        }
         match self {
             Space::Xyz(_) => x,
             Space::Yxy(w) => xyz_to_yxy(x, w),
-            Space::Rgb(s) => {
-                let lin = mat_vec(&s.space.xyz_to_rgb(), x);
-                [s.tf.encode_signed(lin[0]), s.tf.encode_signed(lin[1]), s.tf.encode_signed(lin[2])]
-            }
             Space::Luma(_, tf) => [tf.encode_signed(x[1]), 0.0, 0.0],
-            Space::Hsl(s) => rgb_to_hsl(Space::Rgb(s).from_xyz(x)),
-            Space::Hsv(s) => rgb_to_hsv(Space::Rgb(s).from_xyz(x)),
-            Space::Hwb(s) => hsv_to_hwb(rgb_to_hsv(Space::Rgb(s).from_xyz(x))),
             Space::Lab(w) => xyz_to_lab(x, w),
             Space::Lch(w) => rect_to_polar(xyz_to_lab(x, w)),
             Space::Luv(w) => xyz_to_luv(x, w),
             Space::Lchuv(w) => rect_to_polar(xyz_to_luv(x, w)),
             Space::Hsluv(w) => lchuv_to_hsluv(rect_to_polar(xyz_to_luv(x, w))),
-            Space::Oklab => xyz_to_oklab(x),
-            Space::Oklch => rect_to_polar(xyz_to_oklab(x)),
-            Space::Okhsl => super::ok::linear_srgb_to_okhsl(xyz_to_lin_srgb(x)),
-            Space::Okhsv => super::ok::linear_srgb_to_okhsv(xyz_to_lin_srgb(x)),
-            Space::Okhwb => super::ok::okhsv_to_okhwb(super::ok::linear_srgb_to_okhsv(xyz_to_lin_srgb(x))),
+            _ => unreachable!(),
         }
     }
 
-    /// well-conditioned comparison vector: cylindrical coordinates in cartesian form.
-    pub fn cmp_vec(self, c: V3) -> V3 {
-        match self.hue_index() {
-            Some(0) => {
+    /// The linear RGB space a space is defined on, if any (hexcone and RGB types: their standard's;
+    /// the Ok family: linear sRGB).
+    pub fn anchor(self) -> Option<RgbSpaceM> {
+        match self {
+            Space::Rgb(s) | Space::Hsl(s) | Space::Hsv(s) | Space::Hwb(s) => Some(s.space),
+            Space::Oklab | Space::Oklch | Space::Okhsl | Space::Okhsv | Space::Okhwb => Some(LIN_SRGB.space),
+            _ => None,
+        }
+    }
+    /// components -> linear RGB of the anchor space (anchored spaces only)
+    pub fn to_lin(self, c: V3) -> V3 {
+        match self {
+            Space::Rgb(s) => [s.tf.decode_signed(c[0]), s.tf.decode_signed(c[1]), s.tf.decode_signed(c[2])],
+            Space::Hsl(s) => Space::Rgb(s).to_lin(hsl_to_rgb(c)),
+            Space::Hsv(s) => Space::Rgb(s).to_lin(hsv_to_rgb(c)),
+            Space::Hwb(s) => Space::Rgb(s).to_lin(hsv_to_rgb(hwb_to_hsv(c))),
+            Space::Oklab => super::ok::oklab_to_linear_srgb(c),
+            Space::Oklch => super::ok::oklab_to_linear_srgb(polar_to_rect(c)),
+            Space::Okhsl => super::ok::okhsl_to_linear_srgb(c),
+            Space::Okhsv => super::ok::okhsv_to_linear_srgb(c),
+            Space::Okhwb => super::ok::okhsv_to_linear_srgb(super::ok::okhwb_to_okhsv(c)),
+            _ => panic!("not anchored"),
+        }
+    }
+    pub fn from_lin(self, lin: V3) -> V3 {
+        match self {
+            Space::Rgb(s) => [s.tf.encode_signed(lin[0]), s.tf.encode_signed(lin[1]), s.tf.encode_signed(lin[2])],
+            Space::Hsl(s) => rgb_to_hsl(Space::Rgb(s).from_lin(lin)),
+            Space::Hsv(s) => rgb_to_hsv(Space::Rgb(s).from_lin(lin)),
+            Space::Hwb(s) => hsv_to_hwb(rgb_to_hsv(Space::Rgb(s).from_lin(lin))),
+            Space::Oklab => super::ok::linear_srgb_to_oklab(lin),
+            Space::Oklch => rect_to_polar(super::ok::linear_srgb_to_oklab(lin)),
+            Space::Okhsl => super::ok::linear_srgb_to_okhsl(lin),
+            Space::Okhsv => super::ok::linear_srgb_to_okhsv(lin),
+            Space::Okhwb => super::ok::okhsv_to_okhwb(super::ok::linear_srgb_to_okhsv(lin)),
+            _ => panic!("not anchored"),
+        }
+    }
+    /// The model conversion src -> dst: through the shared linear RGB when both spaces are defined
+    /// on the same one (no matrix round trip), otherwise through XYZ. Returns (result, intermediate).
+    pub fn convert_to(self, dst: Space, c: V3) -> (V3, V3) {
+        match (self.anchor(), dst.anchor()) {
+            (Some(a), Some(b)) if a == b => {
+                let lin = self.to_lin(c);
+                (dst.from_lin(lin), lin)
+            }
+            _ => {
+                let xyz = self.to_xyz(c);
+                (dst.from_xyz(xyz), xyz)
+            }
+        }
+    }
+    /// continue the model conversion from a (perturbed) intermediate
+    pub fn from_intermediate(self, src: Space, mid: V3) -> V3 {
+        match (src.anchor(), self.anchor()) {
+            (Some(a), Some(b)) if a == b => self.from_lin(mid),
+            _ => self.from_xyz(mid),
+        }
+    }
+
+    /// well-conditioned comparison vector: colours are compared as colours. Cylindrical
+    /// coordinates go to cartesian form with the *chroma-like* radius, so that hue at the grey axis
+    /// and saturation at the tips of the cone / bicone are weighted by how much colour they carry.
+    pub fn cmp_vec(self, c: V3) -> [f64; 4] {
+        match self {
+            Space::Hsl(_) | Space::Okhsl => {
                 let h = c[0].to_radians();
-                [c[1] * h.cos(), c[1] * h.sin(), c[2]]
+                let r = c[1] * (1.0 - (2.0 * c[2] - 1.0).abs());
+                [r * h.cos(), r * h.sin(), c[2], 0.0]
             }
-            Some(_) => {
+            Space::Hsv(_) | Space::Okhsv => {
+                let h = c[0].to_radians();
+                let r = c[1] * c[2];
+                [r * h.cos(), r * h.sin(), c[2], 0.0]
+            }
+            Space::Hwb(_) | Space::Okhwb => {
+                let h = c[0].to_radians();
+                let r = 1.0 - c[1] - c[2];
+                [r * h.cos(), r * h.sin(), c[1], c[2]]
+            }
+            Space::Hsluv(_) => {
+                let h = c[0].to_radians();
+                let r = c[1] * c[2].min(100.0 - c[2]).max(0.0) / 50.0;
+                [r * h.cos(), r * h.sin(), c[2], 0.0]
+            }
+            Space::Lch(_) | Space::Lchuv(_) | Space::Oklch => {
                 let h = c[2].to_radians();
-                [c[0], c[1] * h.cos(), c[1] * h.sin()]
+                [c[0], c[1] * h.cos(), c[1] * h.sin(), 0.0]
             }
-            None => c,
+            // chromaticity carries no weight without luminance: compare xyY colours as tristimulus values
+            Space::Yxy(w) => {
+                let x = yxy_to_xyz(c, w);
+                [x[0], x[1], x[2], 0.0]
+            }
+            _ => [c[0], c[1], c[2], 0.0],
         }
     }
     /// nominal width of the comparison space (for scaling tolerances)
@@ -491,16 +577,14 @@ pub fn hwb_to_hsv(c: V3) -> V3 {
     [c[0], s, v]
 }
 
-// ---- Oklab (Ottosson 2020, matrices as updated 2021-01-25) -------------------------------------
-const OK_M1: M3 = [[0.8189330101, 0.3618667424, -0.1288597137], [0.0329845436, 0.9293118715, 0.0361456387], [0.0482003018, 0.2643662691, 0.6338517070]];
-const OK_M2: M3 = [[0.2104542553, 0.7936177850, -0.0040720468], [1.9779984951, -2.4285922050, 0.4505937099], [0.0259040371, 0.7827717662, -0.8086757660]];
+// ---- Oklab (Ottosson 2020) ---------------------------------------------------------------------
+// Since the 2021-01-25 update the authoritative numbers are the linear-sRGB <-> LMS matrices
+// (ok.rs); XYZ is reached through the sRGB matrix derived from primaries and white point.
 pub fn xyz_to_oklab(x: V3) -> V3 {
-    let lms = mat_vec(&OK_M1, x);
-    mat_vec(&OK_M2, [lms[0].cbrt(), lms[1].cbrt(), lms[2].cbrt()])
+    super::ok::linear_srgb_to_oklab(xyz_to_lin_srgb(x))
 }
 pub fn oklab_to_xyz(c: V3) -> V3 {
-    let lms_ = mat_vec(&mat_inv(&OK_M2), c);
-    mat_vec(&mat_inv(&OK_M1), [lms_[0].powi(3), lms_[1].powi(3), lms_[2].powi(3)])
+    lin_srgb_to_xyz(super::ok::oklab_to_linear_srgb(c))
 }
 
 // ---- HSLuv (hsluv.org reference implementation, rev 4) ------------------------------------------
@@ -606,7 +690,7 @@ mod test {
         assert!(close(xyz_to_oklab([0.0, 1.0, 0.0]), [0.922, -0.671, 0.263], 1e-3));
         assert!(close(xyz_to_oklab([0.0, 0.0, 1.0]), [0.153, -1.415, -0.449], 1e-3));
         let x = [0.3, 0.4, 0.2];
-        assert!(close(oklab_to_xyz(xyz_to_oklab(x)), x, 1e-12));
+        assert!(close(oklab_to_xyz(xyz_to_oklab(x)), x, 1e-7));
     }
     #[test]
     fn hsluv_snapshot() {
